@@ -1,10 +1,11 @@
 /-
 C08 — Declared field lengths are enforced on both pack and unpack.
-Composite level here; the primitive level (`prim_pack_bound`, `prim_unpack_bound`,
-`prim_pack_fails_over`) lives in Lemmas/Prim.lean and is re-exported below once merged.
+Primitive level (String / Numeric / Binary / Hex through defaultPacker / Track2Packer;
+proofs in Lemmas/Prim.lean) and composite level.
 -/
 import Iso8583.Props.C06
 import Iso8583.Spec.Coherent
+import Iso8583.Lemmas.Prim
 
 namespace Iso8583.C08
 open Iso8583 Pref
@@ -136,6 +137,44 @@ theorem composite_unpack_rejects_over (s : CompSpec) (subs : List (Tag × Field)
   by_cases h1 : offset > data.length
   · right; simp [h1]
   · left; simp [h1, hover]
+
+
+/-! ## Primitive fields -/
+
+/-- **Pack bound**: Pack returns bytes only if the (padded) value length `announced`
+satisfies the prefixer's bound against the declared `len` — equal to `len` for a fixed
+field (`2·len` hex digits for Hex.Fixed), ≤ `len` and within the digit capacity for a
+variable one; BER-TLV with `len = 0` and None declare no bound (`Pref.lenOK`). -/
+theorem prim_pack_ok_bound (s : PrimSpec) (v : Value) (bs : Bytes) (hx : s.pref.exportedB = true)
+    (hp : s.pack v = .ok bs) :
+    ∃ b, s.valueBytes v = .ok b ∧ s.pref.lenOK s.len (s.announced b) ∧ b.length ≤ s.announced b :=
+  PrimSpec.prim_pack_bound s v bs hx hp
+
+/-- **Pack refuses**: a value whose padded length violates the bound makes Pack return
+an error — never bytes, never a panic. -/
+theorem prim_pack_over_fails (s : PrimSpec) (v : Value) (b : Bytes) (hx : s.pref.exportedB = true)
+    (hb : s.valueBytes v = .ok b) (hover : ¬ s.pref.lenOK s.len (s.announced b)) :
+    s.pack v = .err :=
+  PrimSpec.prim_pack_fails_over s v b hx hb hover
+
+/-- **Unpack bound**: an accepted field's announced length is ≤ the declared maximum
+(same two exceptions), the bytes read were available, and exactly prefix + value bytes
+were consumed. No coherence hypothesis: this holds for every spec. -/
+theorem prim_unpack_ok_bound (s : PrimSpec) (data : Bytes) (v : Value) (read : Nat)
+    (h : s.unpack data = .ok (v, read)) :
+    ∃ n k, s.pref.decodeLength s.len data = .ok (n, k) ∧
+      (s.pref ≠ .none ∧ ¬ (s.pref = .berTLV ∧ s.len = 0) → n ≤ s.len) ∧
+      (s.pref = .none → n = data.length) ∧
+      k ≤ read ∧ read ≤ data.length ∧
+      (s.enc ≠ .berTag → read = k + C07.needed s.enc (s.valueLength n)) :=
+  PrimSpec.prim_unpack_bound s data v read h
+
+/-- **Unpack refuses**: if every length the prefix can announce exceeds the maximum, Unpack fails. -/
+theorem prim_unpack_over_fails (s : PrimSpec) (data : Bytes)
+    (hb : s.pref ≠ .none ∧ ¬ (s.pref = .berTLV ∧ s.len = 0))
+    (hover : ∀ n k, s.pref.decodeLength s.len data = .ok (n, k) → s.len < n) :
+    s.unpack data = .err :=
+  PrimSpec.prim_unpack_fails_over s data hb hover
 
 /-! Non-vacuity -/
 example : Bounded (.var .ascii 2) 50 12 := by simp [Bounded, C06.capacity]
